@@ -9,5 +9,6 @@ CONSTANTS
   MissingParentIgnored = FALSE
   ProfileBeatsFlag = FALSE
   EnvProfileBeatsFlag = TRUE
+  WindowAsUnit = FALSE
 INVARIANTS C32_Winner
 CHECK_DEADLOCK FALSE
